@@ -28,7 +28,7 @@ MANIFEST = dict(
          "the path the song-only loaders finally open is directory ++ entry for an existing entry of the instrument path or module directory "
          "other than '.'/'..' and without '/' (C10_confined) and that any name containing '/' opens nothing (C10_slash_never_matches); that the "
          "Startrekker/Magnetic Fields companion names are siblings of the module file and are not looked for without a path "
-         "(C10_companion_flt/_mfp/_none, C10_dirbase); that a helper program is started only for path loads of >=100-byte files with MO3/Rar "
+         "(C10_companion_flt/_mfp/_none, C10_dirbase); that a helper program is started only for path loads of files not shorter than libxmp_decrunch's minimum (generated constant) with MO3/Rar "
          "signature not claimed by a built-in depacker, with the fixed argv holding the file name as one element (C10_exec, "
          "C10_exec_only_for_paths, C10_argv_single_argument). The premise that these are the only ways a path reaches the OS is the generated "
          "table of every open/stat/opendir/mkstemp/unlink/fork/exec call site of the compiled sources (clang AST of all translation units, "
@@ -90,7 +90,7 @@ def names_correspondence(ck):
         exp = [l[7:] for l in lines if l.startswith("expect ")]
         if len(cases) != len(exp):
             raise vlib.InfraError("c10_names output malformed")
-        mo = vlib.run_driver("drv_c10", "\n".join(cases) + "\n") if ck.lean_ok else None
+        mo = vlib.run_driver("drv_c10", "\n".join(cases) + "\n") if ck.driver_ok else None
         for i, (c, e) in enumerate(zip(cases, exp)):
             kind = c.split(" ", 1)[0]
             res = e.split(" ", 1)[0]
@@ -122,6 +122,10 @@ def run(ck):
     ck.note("functions_examined", gen["functions"])
     bad_sites = [r for r in gen["sites"] if r[4].startswith(".other") or r[4].startswith(".literal")]
     ck.proofs(["XmpProps.C10"], required=REQUIRED, drivers=["drv_c10"])
+    # the model driver does not depend on the proofs: keep the correspondence and the exec expectation alive
+    # when only a theorem broke
+    ck.driver_ok = bool(ck.lean_ok) or vlib.lean_build(["drv_c10"])[0]
+    ck.min_header = gen["min_header"]
     for r in bad_sites:
         # the theorem C10_sites_guarded is already broken by these; say which site it is
         ck.unproved("open site %s:%s -> %s" % (r[0], r[1], r[2]), "path argument of unguarded provenance: " + r[4])
